@@ -357,6 +357,39 @@ op('lu', lambda rng, D, P, t: [U(gen_square(rng, D, P, rng.randint(1, 3)))],
    lambda a: algopy.lu(a[0]), lambda z: scipy.linalg.lu(z[0]), tags=('linalg', 'factor'))
 op('eigh', lambda rng, D, P, t: [U(gen_square(rng, D, P, rng.randint(1, 3), 'sym'))],
    lambda a: algopy.eigh(a[0]), lambda z: np.linalg.eigh(z[0]), tags=('linalg', 'factor'))
+def _gen_qr_rankdef(rng, D, P, tier):
+    # square matrices; ONE direction has a rank-deficient base point (the kernels detect the rank of A_0 per direction)
+    n = rng.choice([3, 4])
+    x = gen_tall(rng, D, P, n, n)
+    p = rng.randrange(P)
+    r = rng.randint(1, n - 1)
+    B = rand_coeffs(rng, (n, r), -1, 1)
+    C = rand_coeffs(rng, (r, n), -1, 1)
+    x[0, p] = B @ C
+    return [U(x)]
+
+
+op('qr:rankdef', _gen_qr_rankdef, lambda a: algopy.qr(a[0]), None, tags=('linalg', 'factor'))
+
+
+def _gen_qr_eps(rng, D, P, tier):
+    # wide matrices with small (but accepted) pivots in R_0 and an explicit rank threshold; some higher coefficient is large
+    m, n = rng.choice([(3, 4), (2, 3), (3, 5)])
+    x = rand_coeffs(rng, (D, P, m, n), -1, 1)
+    for p in range(P):
+        Q0 = rand_orth(rng, m)
+        R0 = np.triu(rand_coeffs(rng, (m, n), -1, 1))
+        for i, dv in enumerate([1.0, 0.0625, 0.046875][:m]):
+            R0[i, i] = dv * rng.choice([-1, 1])
+        x[0, p] = Q0 @ R0
+    if D >= 2:
+        x[rng.randrange(1, D)] *= 32.0
+    return [U(x)]
+
+
+op('qr:eps', _gen_qr_eps, lambda a: UTPM.qr(a[0], epsilon=2.0 ** -7), None, tags=('linalg', 'factor'))
+
+
 def _gen_eigh_mixed(rng, D, P, tier):
     # symmetric matrices whose base point has an exactly repeated eigenvalue in ONE direction only
     n = rng.randint(2, 3)
